@@ -20,7 +20,8 @@ def main():
     meta = json.load(open(os.path.join(src, "meta.json")))
     pid = meta.get("property") or name.split("-")[0].upper()
     ids = []
-    for i in [pid, "C01", "C06", "C20"] + sys.argv[2:]:
+    # BENIGN_IDS=C06,C20 limits the translator-based checks that are run beside the property's own check
+    for i in [pid] + os.environ.get("BENIGN_IDS", "C01,C06,C20").split(",") + sys.argv[2:]:
         if i not in ids:
             ids.append(i)
     wt = "/tmp/benign-" + name
@@ -56,7 +57,7 @@ def main():
     finally:
         sh("git -C /repo worktree remove --force %s" % wt)
         for f in os.listdir(os.path.join(ROOT, "build")):
-            if f.startswith("panharness-benign_" + name.replace("-", "_")):
+            if f.startswith("panharness-tmp_benign_" + name.replace("-", "_")):
                 os.remove(os.path.join(ROOT, "build", f))
     return 0
 
